@@ -127,8 +127,10 @@ class ParsePrint(Base):
     def setup(self, c):
         cls, kind, prod, is_comp, f, method, stage = self.common(c)
         absolute = c.one_of('spelling', [True, False])
-        if kind in ('reserved', 'app-dep', 'top-level'):
-            absolute = False
+        if kind in ('reserved', 'app-dep', 'top-level') and absolute:
+            # `stage3.data/x:ref`: the FIRST PATH SEGMENT is `stage3.data`, not the folder `data` -- a reference that carries
+            # a stage is a reference to a component (which may well be named like a folder or an application dependency)
+            is_comp = True
         value = ref_string(c, prod, f, method, stage if absolute else None)
         # callers that know no top-level folders leave the argument out (DataReferenceInfo); the folder shapes need it
         folders = list(TOPLEVEL) if (kind == 'top-level' or c.one_of('special_folders_given', [True, False])) else None
@@ -196,9 +198,11 @@ class Classify(Base):
 
     def setup(self, c):
         cls, kind, prod, is_comp, f, method, stage = self.common(c)
-        absolute = c.one_of('spelling', [True, False]) if is_comp else False
+        absolute = c.one_of('spelling', [True, False])
         if kind == 'app-dep':
             prod = APPNAMES[0]
+        if absolute:
+            is_comp = True          # a stage-qualified reference names a component, whatever the component is called
         value = ref_string(c, prod, f, method, stage if absolute else None)
         return State(args=[cls, value], kwargs={'top_level_folders': list(TOPLEVEL) + list(APPNAMES)}, cls=cls, is_comp=is_comp, kind=kind)
 
